@@ -871,4 +871,178 @@ theorem encFeed_sim (p : Params) (hp : p.Valid) (i : Nat) (m : Method) (g : List
       · rw [feed_succ p fuel e.st e.nid m input hne]; exact k4
       · rw [feed_succ p fuel e.st e.nid m input hne]; exact k5
 
+/-! ### Whole runs: `Encoder::new`, any calls, `finish` -/
+
+/-- One call on the encoder (`encode` = borrow, `encode_copy` = copy) or on the consumer side of
+its iovec (`ConsumingIovec::consume` by slices, `advance_slices` by bytes). -/
+inductive Call where
+  | feed (m : Method) (d : List UInt8)
+  | consume (k : Nat)
+  | advance (k : Nat)
+  deriving Repr, DecidableEq
+
+/-- The world, the encoder, and every byte the consumer took out so far. -/
+structure Run where
+  w : World
+  e : EncW
+  drained : List UInt8
+
+/-- One call, as the harness family `codecw` performs it (`Driver/CodecW.lean`): a borrowed piece
+lives in a fresh caller buffer. -/
+def encCall (p : Params) (i : Nat) (r : Run) : Call → Option Run
+  | .feed .borrow d =>
+    (encFeed p (2 * d.length + 2) (r.w.addExt d).1 i r.e .borrow ⟨.ext r.w.exts.length, 0, d.length⟩ d 0).map
+      fun x => ⟨x.1, x.2, r.drained⟩
+  | .feed .copy d =>
+    (encFeed p (2 * d.length + 2) r.w i r.e .copy ⟨.ext 0, 0, 0⟩ d 0).map fun x => ⟨x.1, x.2, r.drained⟩
+  | .consume k =>
+    match r.w.iov i with
+    | none => none
+    | some v => (r.w.consume i k).map fun x => ⟨x.1, r.e, r.drained ++ r.w.flat (v.slices.take x.2)⟩
+  | .advance k =>
+    match r.w.iov i with
+    | none => none
+    | some v => (r.w.advance i k).map fun x => ⟨x.1, r.e, r.drained ++ (r.w.flat v.slices).take x.2⟩
+
+def encCalls (p : Params) (i : Nat) : Run → List Call → Option Run
+  | r, [] => some r
+  | r, c :: t =>
+    match encCall p i r c with
+    | none => none
+    | some r' => encCalls p i r' t
+
+/-- A fresh world holding one empty iovec (index 0), as `State.init`. -/
+def World.fresh (pol : Policy) (tun : Tuning) : World := ((World.init pol tun).addIov Iov.empty).1
+
+/-- `Encoder::new()`, the calls, `Encoder::finish()`: the final world and the drained bytes. -/
+def encRun (p : Params) (pol : Policy) (tun : Tuning) (calls : List Call) : Option (World × List UInt8) :=
+  match encInit p (World.fresh pol tun) 0 with
+  | none => none
+  | some (w1, e1) =>
+    match encCalls p 0 ⟨w1, e1, []⟩ calls with
+    | none => none
+    | some r => (encFinish p r.w 0 r.e).map fun w' => (w', r.drained)
+
+/-- The pieces fed by a call list. -/
+def pieces : List Call → List (Method × List UInt8)
+  | [] => []
+  | .feed m d :: t => (m, d) :: pieces t
+  | _ :: t => pieces t
+
+/-- All input bytes of a call list. -/
+def inputOf (calls : List Call) : List UInt8 := ((pieces calls).map (·.2)).flatten
+
+theorem runEv_prods (q : Pipe) (ops : List Woodpile.Pipe.Op) : runEv q (ops.map Ev.prod) = q.run ops := by
+  induction ops generalizing q with
+  | nil => rfl
+  | cons op t ih => simp only [List.map_cons, runEv, List.foldl_cons, stepEv, Pipe.run] at ih ⊢; exact ih _
+
+theorem prodOps_prods (ops : List Woodpile.Pipe.Op) : prodOps (ops.map Ev.prod) = ops := by
+  induction ops with
+  | nil => rfl
+  | cons op t ih => simp [prodOps, ih]
+
+/-- The invariant between calls: the iovec represents the pipe `runEv Pipe.empty evs` (producer ops
+= the encoder's emits so far, `acc`, with some drain schedule interleaved), whose undrained view
+represents the abstract encoder state after `input`. -/
+def RunInv (p : Params) (i : Nat) (r : Run) (input : List UInt8) (acc : List Emit) : Prop :=
+  ∃ v q evs, r.w.iov i = some v ∧ SimV r.w v r.drained r.e.toks q ∧ q = runEv Pipe.empty evs ∧
+    prodOps evs = acc.map (·.op) ∧ Rel p r.e.st r.e.nid q.total (input.foldl (byteStep p) BS.init)
+
+theorem fold_init_inv (p : Params) (hp : p.Valid) (input : List UInt8) :
+    (input.foldl (byteStep p) BS.init).Inv p ∧ (input.foldl (byteStep p) BS.init).Inv2 := by
+  obtain ⟨h1, h2⟩ := init_inv p hp
+  exact fold_inv p hp input BS.init h1 h2
+
+theorem encFeed_run (p : Params) (hp : p.Valid) (i : Nat) (m : Method) (d : List UInt8) (base : Slice)
+    (w : World) (e : EncW) (g : List UInt8) (input : List UInt8) (acc : List Emit)
+    (hinv : RunInv p i ⟨w, e, g⟩ input acc)
+    (hbuf : m = .borrow → ∃ b, base.region = .ext b ∧ InBuf w b (base.off + 0) d) :
+    ∃ w' e', encFeed p (2 * d.length + 2) w i e m base d 0 = some (w', e') ∧
+      RunInv p i ⟨w', e', g⟩ (input ++ d) (acc ++ (Enc.feedAll p e.st e.nid m d).2.2) ∧
+      e'.st = (Enc.feedAll p e.st e.nid m d).1 ∧ e'.nid = (Enc.feedAll p e.st e.nid m d).2.1 := by
+  obtain ⟨v, q, evs, hv, hsim, hq, hev, hrel⟩ := hinv
+  obtain ⟨h1, h2⟩ := fold_init_inv p hp input
+  obtain ⟨w', v', e', k1, k2, k3, k4, k5, _⟩ :=
+    encFeed_sim p hp i m g base (2 * d.length + 2) w v e q _ d 0 hv hsim hrel h1 h2 hbuf
+  have hfs := feed_sim p hp m (2 * d.length + 2) e.st e.nid q.total _ d hrel h1 h2 (by omega)
+  refine ⟨w', e', k1, ?_, k4, k5⟩
+  refine ⟨v', _, evs ++ ((Enc.feed p (2 * d.length + 2) e.st e.nid m d).2.2.map (·.op)).map Ev.prod, k2, k3, ?_, ?_, ?_⟩
+  · rw [Woodpile.Pipe.runEv_append, ← hq, runEv_prods]
+  · rw [Woodpile.Pipe.prodOps_append, hev, prodOps_prods, List.map_append]; rfl
+  · rw [k4, k5, run_total, List.foldl_append]
+    exact hfs
+
+theorem encCall_sim (p : Params) (hp : p.Valid) (i : Nat) (r : Run) (c : Call) (input : List UInt8)
+    (acc : List Emit) (hinv : RunInv p i r input acc) :
+    ∃ r' acc', encCall p i r c = some r' ∧ RunInv p i r' (input ++ inputOf [c]) acc' ∧
+      ∀ rest, Enc.runPieces.go p (pieces (c :: rest)) r.e.st r.e.nid acc =
+        Enc.runPieces.go p (pieces rest) r'.e.st r'.e.nid acc' := by
+  obtain ⟨w, e, g⟩ := r
+  cases c with
+  | feed m d =>
+    have hgo : ∀ (e' : EncW), e'.st = (Enc.feedAll p e.st e.nid m d).1 → e'.nid = (Enc.feedAll p e.st e.nid m d).2.1 →
+        ∀ rest, Enc.runPieces.go p (pieces (.feed m d :: rest)) e.st e.nid acc =
+          Enc.runPieces.go p (pieces rest) e'.st e'.nid (acc ++ (Enc.feedAll p e.st e.nid m d).2.2) := by
+      intro e' h1 h2 rest
+      rw [h1, h2]; rfl
+    have hin : inputOf [Call.feed m d] = d := by simp [inputOf, pieces]
+    rw [hin]
+    cases m with
+    | copy =>
+      obtain ⟨w', e', k1, k2, k3, k4⟩ := encFeed_run p hp i .copy d ⟨.ext 0, 0, 0⟩ w e g input acc hinv
+        (fun h => by cases h)
+      exact ⟨⟨w', e', g⟩, _, by simp [encCall, k1], k2, hgo e' k3 k4⟩
+    | borrow =>
+      obtain ⟨v, q, evs, hv, hsim, hrest⟩ := hinv
+      have hinv' : RunInv p i ⟨(w.addExt d).1, e, g⟩ input acc := ⟨v, q, evs, hv, hsim.addExt d, hrest⟩
+      obtain ⟨w', e', k1, k2, k3, k4⟩ := encFeed_run p hp i .borrow d ⟨.ext w.exts.length, 0, d.length⟩
+        (w.addExt d).1 e g input acc hinv' (fun _ => ⟨w.exts.length, rfl, InBuf.addExt w d⟩)
+      exact ⟨⟨w', e', g⟩, _, by simp [encCall, k1], k2, hgo e' k3 k4⟩
+  | consume k =>
+    obtain ⟨v, q, evs, hv, hsim, hq, hev, hrel⟩ := hinv
+    simp only at hv hsim hrel
+    obtain ⟨v', h1, h2, _⟩ := World.consume_spec w i v k hv hsim.inv
+    have hm : sumLens (v.slices.take (min k v.stableN)) ≤ sumLens (v.slices.take v.stableN) :=
+      sumLens_take_mono _ (Nat.min_le_right _ _)
+    obtain ⟨g1, _, _⟩ := hsim.consumed h2 hm
+    rw [flat_take_prefix w v.arena v.slices _ hsim.inv.slices_ok] at g1
+    refine ⟨⟨w.setIov i (some v'), e, g ++ w.flat (v.slices.take (min k v.stableN))⟩, acc,
+      by simp [encCall, hv, h1], ?_, fun rest => rfl⟩
+    refine ⟨v', _, evs ++ [.drain (sumLens (v.slices.take (min k v.stableN)))], by simp, g1.setIov i _, ?_, ?_, ?_⟩
+    · rw [Woodpile.Pipe.runEv_append, ← hq]; rfl
+    · rw [Woodpile.Pipe.prodOps_append, hev]; simp [prodOps]
+    · simp only [inputOf, pieces, List.map_nil, List.flatten_nil, List.append_nil]
+      rw [Woodpile.Pipe.consume_total]; exact hrel
+  | advance k =>
+    obtain ⟨v, q, evs, hv, hsim, hq, hev, hrel⟩ := hinv
+    simp only at hv hsim hrel
+    obtain ⟨v', h1, h2⟩ := World.advance_spec w i v k hv hsim.inv
+    obtain ⟨g1, _, _⟩ := hsim.consumed h2 (Nat.min_le_right _ _)
+    refine ⟨⟨w.setIov i (some v'), e, g ++ (w.flat v.slices).take (min k (sumLens (v.slices.take v.stableN)))⟩, acc,
+      by simp [encCall, hv, h1], ?_, fun rest => rfl⟩
+    refine ⟨v', _, evs ++ [.drain (min k (sumLens (v.slices.take v.stableN)))], by simp, g1.setIov i _, ?_, ?_, ?_⟩
+    · rw [Woodpile.Pipe.runEv_append, ← hq]; rfl
+    · rw [Woodpile.Pipe.prodOps_append, hev]; simp [prodOps]
+    · simp only [inputOf, pieces, List.map_nil, List.flatten_nil, List.append_nil]
+      rw [Woodpile.Pipe.consume_total]; exact hrel
+
+theorem inputOf_cons (c : Call) (t : List Call) : inputOf (c :: t) = inputOf [c] ++ inputOf t := by
+  cases c <;> simp [inputOf, pieces]
+
+theorem encCalls_sim (p : Params) (hp : p.Valid) (i : Nat) (calls : List Call) :
+    ∀ (r : Run) (input : List UInt8) (acc : List Emit), RunInv p i r input acc →
+    ∃ r' acc', encCalls p i r calls = some r' ∧ RunInv p i r' (input ++ inputOf calls) acc' ∧
+      Enc.runPieces.go p (pieces calls) r.e.st r.e.nid acc = Enc.runPieces.go p [] r'.e.st r'.e.nid acc' := by
+  induction calls with
+  | nil =>
+    intro r input acc h
+    exact ⟨r, acc, rfl, by simpa [inputOf, pieces] using h, rfl⟩
+  | cons c t ih =>
+    intro r input acc h
+    obtain ⟨r1, acc1, h1, h2, h3⟩ := encCall_sim p hp i r c input acc h
+    obtain ⟨r2, acc2, k1, k2, k3⟩ := ih r1 _ acc1 h2
+    refine ⟨r2, acc2, by simp [encCalls, h1, k1], ?_, (h3 t).trans k3⟩
+    rw [inputOf_cons, ← List.append_assoc]; exact k2
+
 end Woodpile.EncWorld
